@@ -30,8 +30,20 @@ impl PeerSink for NullSink {
         Ok(())
     }
 }
+/// A sink whose advisory `is_connected()` says "no": neither gate may depend on it.
+struct DownSink;
+impl PeerSink for DownSink {
+    fn is_connected(&self) -> bool {
+        false
+    }
+    fn send_notify(&self, _m: &str, _b: NotifyBody) -> Result<(), PeerSendError> {
+        Ok(())
+    }
+}
+static PEER_FLIP: AtomicU64 = AtomicU64::new(0);
+/// every other peer handle handed to request_resume reports "not connected"
 fn peer(id: u64) -> PeerHandle {
-    PeerHandle::new(PeerId(id), Arc::new(NullSink))
+    if PEER_FLIP.fetch_add(1, Ordering::Relaxed) % 2 == 1 { PeerHandle::new(PeerId(id), Arc::new(DownSink)) } else { PeerHandle::new(PeerId(id), Arc::new(NullSink)) }
 }
 
 #[derive(Clone, Debug, PartialEq, Eq, Hash)]
@@ -356,8 +368,13 @@ fn run_scenario(s: &Scenario, miri: bool, hb: Option<&Heartbeat>) -> Outcome {
     let sent_final: u64 = s.pre * s.unit + ops.iter().map(|(_, _, o, _)| if let Sig::Send { n } = o { *n } else { 0 }).sum::<u64>();
     let acked_lb: u64 = ops
         .iter()
-        .filter(|(ca, _, o, _)| matches!(o, Sig::Ack { file: 0, .. }) && ops.iter().all(|(_, ds, x, _)| !matches!(x, Sig::Send { .. }) || ds < ca))
-        .map(|(_, _, o, _)| if let Sig::Ack { off, .. } = o { (*off).min(sent_final) } else { 0 })
+        // an ACCEPTED resume for the current file is an acknowledgement up to its offset as well (the receiver has that much)
+        .filter(|(ca, _, o, ok)| (matches!(o, Sig::Ack { file: 0, .. }) || (matches!(o, Sig::Resume { file: 0, .. }) && *ok)) && ops.iter().all(|(_, ds, x, _)| !matches!(x, Sig::Send { .. }) || ds < ca))
+        .map(|(_, _, o, _)| match o {
+            Sig::Ack { off, .. } => (*off).min(sent_final),
+            Sig::Resume { off, .. } if *off <= sent_final => *off,
+            _ => 0,
+        })
         .max()
         .unwrap_or(0);
     let ack_frees_credit = no_advance && matches!(s.kind, Kind::Credit { chunk } if sent_final - acked_lb == 0 || sent_final - acked_lb + chunk <= s.window);
